@@ -211,7 +211,14 @@ Definition restart (maxcap : N) (rb : readback) : rstate :=
 (* loadClients also calls OnDisconnect(cl, ErrServerShuttingDown, expire) for every stored client:
    the writes a restart itself makes *)
 Definition restart_events (rb : readback) : list event :=
-  map (fun c => EDisconnect (mkRClient (session_obs c) false) (ends_on_disconnect c)) (rb_clients rb).
+  let cl := load_clients (rb_clients rb) in
+  map (fun c => EDisconnect (mkRClient (session_obs c) false) (ends_on_disconnect c)) (rb_clients rb) ++
+  (* loadSubscriptions / loadInflight: records of client ids without a restored session are dropped
+     from the store through OnUnsubscribed / OnQosDropped *)
+  map (fun s => EUnsubscribed (sr_client s) [sr_filter s])
+      (filter (fun s => negb (has_client cl (sr_client s))) (rb_subs rb)) ++
+  map (fun m => EQosDropped (mr_client m) (mr_pid m))
+      (filter (fun m => negb (has_client cl (mr_client m))) (rb_inflight rb)).
 
 (* what is observed of the restored state *)
 Section RESTORED.
